@@ -121,7 +121,8 @@ def state_of(n):
 
 INITS = ([()] + [((k, v),) for k in 'ab' for v in [VALS['vi'][0], NODEVAL, ('m', P + 'map', ())]]
          + [(('a', VALS['vi'][0]), ('b', VALS['vs'][0])), (('b', VALS['vn'][0]), ('a', NODEVAL))]
-         + [('text', 'a: &x 1\nb: *x\n'), ('text', 'b: &y [1]\na: *y\n'), ('text', 'a: s\nb: 1.5\n')])
+         + [('text', 'a: !!str {x: 1}\nb: !!int [1]\n'), ('text', 'a: !!null []\nb: !!map x\n'),
+            ('text', 'a: &x 1\nb: *x\n'), ('text', 'b: &y [1]\na: *y\n'), ('text', 'a: s\nb: 1.5\n')])
 
 
 def run_bfs(init, depth, res):
@@ -352,7 +353,8 @@ def defaults_cases(res):
                     else:
                         expect = False
                 elif v[0] != 's' and kind_of(d) in ('list', 'dict') and not v[2]:
-                    expect = None                        # empty collections vs collection defaults: not specified
+                    # an empty collection equals an empty default of the same kind ([] is not {})
+                    expect = (d == [] and v[0] == 'q') or (d == {} and v[0] == 'm')
                 else:
                     expect = False
                 res.hist['defaults:' + ('removed' if removed else 'kept')] += 1
